@@ -17,6 +17,7 @@ import (
 
 	"github.com/sourcenetwork/defradb/client"
 	"github.com/sourcenetwork/defradb/errors"
+	"github.com/sourcenetwork/defradb/internal/connor"
 	"github.com/sourcenetwork/defradb/internal/core"
 	"github.com/sourcenetwork/defradb/internal/datastore"
 	"github.com/sourcenetwork/defradb/internal/db/id"
@@ -74,8 +75,13 @@ func newIndexFetcher(
 		indexField := mapper.Field{Index: typeIndex, Name: field.Name}
 		fieldsToCopy = append(fieldsToCopy, indexField)
 	}
-	for i := range fieldsToCopy {
-		f.indexFilter = filter.Merge(f.indexFilter, filter.CopyField(docFilter, fieldsToCopy[i]))
+	// A condition under _or does not restrict the result on its own, and copying the conditions
+	// of single fields out of the filter loses the other branches of an _or. With an _or in the
+	// filter no conditions are derived for the index, it can still serve the ordering.
+	if !containsOrOperator(docFilter) {
+		for i := range fieldsToCopy {
+			f.indexFilter = filter.Merge(f.indexFilter, filter.CopyField(docFilter, fieldsToCopy[i]))
+		}
 	}
 
 	for _, indexedField := range f.indexDesc.Fields {
@@ -92,6 +98,35 @@ func newIndexFetcher(
 
 	f.indexIter = iter
 	return f, iter.Init(ctx, txn.Datastore())
+}
+
+// containsOrOperator returns true if the given filter has an _or operator at any depth.
+func containsOrOperator(docFilter *mapper.Filter) bool {
+	if docFilter == nil {
+		return false
+	}
+	var hasOr func(conditions any) bool
+	hasOr = func(conditions any) bool {
+		switch typedConditions := conditions.(type) {
+		case map[connor.FilterKey]any:
+			for key, value := range typedConditions {
+				if op, ok := key.(*mapper.Operator); ok && op.Operation == opOr {
+					return true
+				}
+				if hasOr(value) {
+					return true
+				}
+			}
+		case []any:
+			for _, element := range typedConditions {
+				if hasOr(element) {
+					return true
+				}
+			}
+		}
+		return false
+	}
+	return hasOr(docFilter.Conditions)
 }
 
 func (f *indexFetcher) NextDoc() (immutable.Option[string], error) {
